@@ -84,8 +84,12 @@ func VerifC18Template() {
 		p := "source" + strconv.Itoa(k)
 		s := &vSource{name: p}
 		s.optional = verifrt.Bool(p + ".optional")
-		s.ns = vStr(verifrt.StringFrom(p+".namespace", "", "ns", "other"), "", "ns", "other")
-		s.scope = verifrt.IntRange(p+".scope", 0, 1)
+		if verifrt.Bound("slim", 0) == 1 {
+			s.ns, s.scope = "", verifk8s.ScopeNamespaced // reduced variety so that longer source lists fit
+		} else {
+			s.ns = vStr(verifrt.StringFrom(p+".namespace", "", "ns", "other"), "", "ns", "other")
+			s.scope = verifrt.IntRange(p+".scope", 0, 1)
+		}
 		kind := "SrcKind" + strconv.Itoa(k)
 		mapper.Scope[kind] = s.scope
 		s.inCache = verifrt.Bool(p + ".inCache")
@@ -113,10 +117,13 @@ func VerifC18Template() {
 	}
 	// template: a plain JSON manifest (or an unparsable template)
 	brokenTemplate := verifrt.Bool("template.unparsable")
-	tNS := vStr(verifrt.StringFrom("target.namespace", "", "ns", "other"), "", "ns", "other")
-	tScope := verifrt.IntRange("target.scope", 0, 1)
+	tNS, tScope, tPresetRef := "ns", verifk8s.ScopeNamespaced, false
+	if verifrt.Bound("slim", 0) != 1 {
+		tNS = vStr(verifrt.StringFrom("target.namespace", "", "ns", "other"), "", "ns", "other")
+		tScope = verifrt.IntRange("target.scope", 0, 1)
+		tPresetRef = verifrt.Bool("target.presetOwnerReference")
+	}
 	mapper.Scope["TargetKind"] = tScope
-	tPresetRef := verifrt.Bool("target.presetOwnerReference")
 	target := map[string]interface{}{"apiVersion": "example.com/v1", "kind": "TargetKind", "metadata": map[string]interface{}{"name": "target"}}
 	md := target["metadata"].(map[string]interface{})
 	if tNS != "" {
@@ -239,6 +246,19 @@ func VerifC18Template() {
 		}
 		verifrt.Assert(ok, "C18/problem-reported-in-invalid-condition")
 		verifrt.Reach("invalid")
+	}
+	// every source up to the first offending one was looked at (watched): a later source is never skipped because of
+	// an earlier optional one that is missing
+	if sourcesOK {
+		for k := range srcs {
+			watched := false
+			for _, w := range cache.Watched {
+				if w == "SrcKind"+strconv.Itoa(k) {
+					watched = true
+				}
+			}
+			verifrt.Assert(watched, "C18/every-source-is-watched")
+		}
 	}
 	if requiredMissing && !outside {
 		verifrt.Assert(res.RequeueAfter == 13*time.Second, "C18/missing-required-source-retried")
